@@ -245,6 +245,7 @@ def check_shots(spec):
     leaves = 0
     runtime_err = 0.0
     zde = 0.0
+    cat = 0.0
     with own_numpy_rng(gen):
         for choices, (r, log), ch in answer_tree(run, max_execs=spec.get("max_leaves", 400000)):
             leaves += 1
@@ -258,6 +259,8 @@ def check_shots(spec):
             if isinstance(r, Exception):
                 if isinstance(r, ZeroDivisionError):
                     zde += w
+                elif isinstance(r, ValueError) and "need at least one array to concatenate" in str(r):
+                    cat += w
                 per_copy = [["EMPTY"] * len(atoms) for _ in copies]
             else:
                 rr = r if isinstance(shots, list) else (r,)
@@ -291,11 +294,12 @@ def check_shots(spec):
             for k in sorted(keys):
                 if abs(exp.get(k, 0.0) - got.get(k, 0.0)) > 1e-9:
                     sig = f"shots:{method}:{mode}:{atom}:distribution:{feat}"
-                    if method == "tree-traversal" and zde > 1e-12 and all(
+                    if method == "tree-traversal" and (zde > 1e-12 or cat > 1e-12) and all(
                             got.get(kk, 0.0) <= exp.get(kk, 0.0) + 1e-9 for kk in keys if kk != '"EMPTY"'):
-                        # known defect class: ZeroDivisionError although other subtrees / shot-vector copies hold valid
+                        # known defect class: error although other subtrees / shot-vector copies hold valid
                         # shots; probability mass only moves from valid results to the error
-                        sig = "shots:tree-traversal:ZeroDivisionError-empty-subtree-or-copy"
+                        sig = ("shots:tree-traversal:ZeroDivisionError-empty-subtree-or-copy" if zde > 1e-12
+                               else "shots:tree-traversal:sample-concatenate-ValueError-empty-subtree")
                     return bad(sig,
                                {kk: round(v, 10) for kk, v in sorted(got.items())},
                                {kk: round(v, 10) for kk, v in sorted(exp.items())}, leaves=leaves, copy=ci)
